@@ -1,11 +1,13 @@
 (** C14/Proofs.v — the lemmas behind C14/Props.v (Refs.v: reference index and rename edits; Alpha.v: alpha-renaming). *)
-From EV Require Import C13.Model C13.Corr C14.Model C14.Refs C14.Alpha C14.Agree C14.Corr.
+From EV Require Import C13.Model C13.Corr C14.Model C14.Refs C14.Tokens C14.Alpha C14.Agree C14.Corr.
 Local Open Scope N_scope.
 
 Definition refs_eq_preimage := Refs.refs_eq_preimage.
 Definition refs_contain_resolved := Refs.refs_contain_resolved.
 Definition refs_only_resolved := Refs.refs_only_resolved.
 Definition rename_edits_exact := Refs.rename_edits_exact.
+Definition cells_are_tokens := Tokens.cells_are_tokens.
+Definition rename_edits_disjoint := Tokens.rename_edits_disjoint.
 Definition rename_preserves_resolution := Alpha.alpha_preserves_resolution.
 Definition ord_resolver_agrees := Agree.ord_agrees_positional.
 
@@ -35,7 +37,7 @@ Example rename_example :
   /\ ord_resolve (alpha 0 9001 p) = ord_resolve p
   /\ real_decl p 0 /\ fresh 9001 p
   /\ check_case {| c_prog := p; c_text := pr_program p; c_fresh := 9001;
-                   c_decls := [{| o_pos := 6; o_name := 0; o_cells := [25; 38];
+                   c_decls := [{| o_pos := 6; o_name := 0; o_cells := [(25, 26); (38, 39)];
                                   o_edits := [(6, 7, 9001); (25, 26, 9001); (38, 39, 9001)] |}] |} = true.
 Proof.
   cbv zeta.
